@@ -198,8 +198,15 @@ func (r *c09Runner) Step(t []string, raw string) string {
 	}
 	tree, nsyn := antlrTreeSexp(q, false)
 	_ = nsyn
-	return fmt.Sprintf("acc=%d syn=%d upd=%d proc=%d param=%d unsup=[%s] other=%d model_upd=%s dml=%s tree=%s",
-		acc, syn, upd, proc, param, strings.Join(unsup, ","), other, modelUpd, dml, tree)
+	// context lifecycle: a default context that is no longer the most recently created one must filter too
+	older := frontend.DefaultCypherContext()
+	_ = frontend.DefaultCypherContext()
+	accOld := 0
+	if _, errOld := frontend.ParseCypher(older, q); errOld == nil {
+		accOld = 1
+	}
+	return fmt.Sprintf("acc=%d acc_old=%d syn=%d upd=%d proc=%d param=%d unsup=[%s] other=%d model_upd=%s dml=%s tree=%s",
+		acc, accOld, syn, upd, proc, param, strings.Join(unsup, ","), other, modelUpd, dml, tree)
 }
 
 func modelHasUpdating(q *cypher.RegularQuery) bool {
